@@ -535,8 +535,8 @@ func init() {
 		out = append(out, Inst{Pkg: "knx", Fn: "HarnessC03TwoSenders", Args: []int64{2, 1, 0}, Ctx: 3, NoNative: true},
 			Inst{Pkg: "knx", Fn: "HarnessC03TwoSenders", Args: []int64{2, 1, 1}, Ctx: 2, NoNative: true})
 		if thorough {
-			out = append(out, Inst{Pkg: "knx", Fn: "HarnessC03TwoSenders", Args: []int64{2, 2, 1}, Ctx: 2, NoNative: true},
-				Inst{Pkg: "knx", Fn: "HarnessC03TwoSenders", Args: []int64{3, 1, 1}, Ctx: 2, NoNative: true})
+			out = append(out, Inst{Pkg: "knx", Fn: "HarnessC03TwoSenders", Args: []int64{3, 1, 1}, Ctx: 2, NoNative: true},
+				Inst{Pkg: "knx", Fn: "HarnessC03TwoSenders", Args: []int64{2, 1, 2}, Ctx: 3, NoNative: true})
 		}
 		return out
 	}
